@@ -165,14 +165,54 @@ def _ec_add(a, b):
     return x, (lam * (a[0] - x) - a[1]) % _P
 
 
-def _ec_pub(k: int) -> bytes:
+def ec_point(k: int):
     r, q = None, _G
     while k:
         if k & 1:
             r = _ec_add(r, q)
         q = _ec_add(q, q)
         k >>= 1
+    return r
+
+
+def _ec_pub(k: int) -> bytes:
+    r = ec_point(k)
     return bytes([2 + (r[1] & 1)]) + r[0].to_bytes(32, "big")
+
+
+# ------------------------------------------------------------------ Electrum's pre-2.0 scheme, from old_mnemonic.py / keystore.py
+def old_wordlist():
+    import btclib.mnemonic as pkg
+    with open(os.path.join(os.path.dirname(pkg.__file__), "_data", "electrum_old_english.txt"), encoding="ascii") as f:
+        return [line.rstrip("\n") for line in f]
+
+
+def ref_old_encode(hex_seed: str):
+    """mn_encode: w1 = x % n, w2 = (x // n + w1) % n, w3 = (x // n // n + w2) % n for each 8 hex characters"""
+    wl = old_wordlist()
+    n = len(wl)
+    out = []
+    for i in range(len(hex_seed) // 8):
+        x = int(hex_seed[8 * i:8 * i + 8], 16)
+        w1 = x % n
+        w2 = (x // n + w1) % n
+        w3 = (x // n // n + w2) % n
+        out += [wl[w1], wl[w2], wl[w3]]
+    return out
+
+
+def ref_old_master(hex_seed: str):
+    """Old_KeyStore.stretch_key and mpk_from_seed: 100 000 x sha256(digest + seed), seed = the hex CHARACTERS;
+    the master public key is x || y of the point."""
+    seed = hex_seed.encode("ascii")
+    d = seed
+    for _ in range(100000):
+        d = hashlib.sha256(d + seed).digest()
+    k = int.from_bytes(d, "big")
+    if not 0 < k < _N:
+        return k, None
+    x, y = ec_point(k)
+    return k, (x.to_bytes(32, "big") + y.to_bytes(32, "big")).hex()
 
 
 def b58check(payload: bytes) -> str:
